@@ -13,7 +13,8 @@ LEVEL = "exploration"
 RULE = ("every recorded public call (lu+L/U/pivot, lu.inverse, qr+Q/R, cholesky+L/U, svd+U/V/s/S, and the four *_solve "
         "routines with 1..4 right-hand sides) on integer-valued matrices of order <= 8 (|entries| <= 16), fed as A*2^se, "
         "se in {0,+40,-40}, in f64 and f32; families: dense, diagonal, triangular, (signed) permutation, orthogonal "
-        "(Hadamard blocks), low-rank-plus-ridge, zero leading entries with negative alternatives, singular, tall / wide with "
+        "(Hadamard blocks), low-rank-plus-ridge, zero leading entries with negative alternatives, mildly graded (rows/columns "
+        "of a {-1,0,1} matrix scaled by 2^0..2^2), singular, tall / wide with "
         "zero or duplicated rows, exactly rank-deficient with integer null-space basis, Gram / diagonally dominant / "
         "indefinite / zero-pivot / semidefinite symmetric; exhaustive: all 729 symmetric 3x3 matrices over {-1,0,1} through "
         "cholesky, all 2x2 matrices over {-2..2} through everything. A call is non-trivial when its premise is exercised "
@@ -89,9 +90,42 @@ def validate(ctx, path, must_hit):
     return events, bads, hits, vac
 
 
+def models(ctx):
+    """Model-check the design models; returns the REPLAY lines (model observables per input)."""
+    replays = []
+    for cfg in ("LUModelMC2_%s", "LUModelMC_%s"):
+        run, prints = ctx.tlc_mc("linalg/LUModel.tla", "linalg/" + cfg % ctx.tier + ".cfg", timeout=1500,
+                                 must_cover=("Col", "Pivot", "Scale"), keep_prints=True)
+        replays += [json.loads(p[1]) for p in prints if p[0] == "REPLAY"]
+    # repaired design (a NaN pivot is an error): the error clause holds
+    ctx.tlc_mc("linalg/CholeskyModel.tla", "linalg/CholeskyModelMC_%s.cfg" % ctx.tier, timeout=1500,
+               must_cover=("Off", "Diag"))
+    # design as coded: the error clause fails exactly on the zero-pivot class (DefectExtent)
+    run, prints = ctx.tlc_mc("linalg/CholeskyModel.tla", "linalg/CholeskyModelMCcoded_%s.cfg" % ctx.tier, timeout=1500,
+                             must_cover=("Off", "Diag"), keep_prints=True)
+    replays += [json.loads(p[1]) for p in prints if p[0] == "REPLAY"]
+    return replays
+
+
 def run(ctx):
     ctx.build()
     all_events, all_bads, all_hits, stats, vacuous = [], [], {}, {}, []
+    replays = models(ctx)
+    rf = ctx.path("c01-model-replay.ndjson")
+    vlib.write_ndjson(rf, replays)
+    cf = ctx.path("c01-modelcmp.ndjson")
+    ctx.harness("replay-spec", rf, cf)
+    events, bads, hits, vac = validate(ctx, cf, ("LU=model", "Chol=model"))
+    if len(events) != len(replays) or bads:
+        raise vlib.ToolError("model comparison: %d replay lines, %d events, %d bad" % (len(replays), len(events), len(bads)))
+    vacuous += ["%s in model comparison" % h for h in vac]
+    for k, n in hits.items():
+        all_hits[k] = all_hits.get(k, 0) + n
+    ctx.drift = sum(v for k, v in hits.items() if k.startswith("drift:"))
+    if ctx.drift:
+        vlib.log("MODEL-DRIFT property=C01: %d of %d inputs on which the real code differs from the design model %s"
+                 % (ctx.drift, len(events), {k: v for k, v in hits.items() if k.startswith("drift:")}))
+    n_cmp = len(events)
     for sub, must in (("exhaustive", CLAUSES_EXH), ("random", CLAUSES_RANDOM)):
         f = ctx.path("c01-%s.ndjson" % sub)
         p = ctx.harness("gen-" + sub, f)
@@ -102,7 +136,7 @@ def run(ctx):
         all_bads += bads
         for k, n in hits.items():
             all_hits[k] = all_hits.get(k, 0) + n
-    n = len(all_events)
+    n = len(all_events) + n_cmp
     oor = sum(v for k, v in all_hits.items() if k.startswith("oor:"))
     unc = sum(v for k, v in all_hits.items() if k.startswith("unc:"))
     if oor * 20 > n:
